@@ -132,8 +132,11 @@ impl SwiftField for Field58D {
         // Parse name and address lines (max 4 lines, max 35 chars each)
         let mut name_and_address = Vec::new();
         for (i, line) in lines.iter().enumerate() {
+            // More lines than the format allows are an error, not something to drop silently
             if i >= 4 {
-                break;
+                return Err(ParseError::InvalidFormat {
+                    message: "Field 58D cannot have more than 4 name and address lines".to_string(),
+                });
             }
             if line.len() > 35 {
                 return Err(ParseError::InvalidFormat {
